@@ -314,3 +314,12 @@ def squeeth_world(S, vaults=(False,), lp_liquidity=True, tag=""):
             uni._positions[SQ_LP] = Position(S.dec(f"{tag}lp_pending_weth", 0, 10 ** 6), S.dec(f"{tag}lp_pending_osqth", 0, 10 ** 6),
                                              S.int(f"{tag}lp_liquidity", 1 if lp_liquidity else 0, 10 ** 30), Decimal(1), Decimal(2), Decimal(1), True)
     return World(broker=broker, market=sq, uni=uni, actions=actions, keys=keys, weth=SQ_WETH, osqth=SQ_OSQTH)
+
+
+@native
+def uni_at_bar(w):
+    """put the uniswap market of uni_world on bar T0 (status = a copy of the frame row, as set_market_status does)"""
+    w.market._market_status = UniswapMarketStatus(T0, w.data.loc[T0].copy())
+    w.market._price_status = pd.Series({w.pool.token0.name: Decimal(1), w.pool.token1.name: Decimal(1)}, dtype=object)
+    w.market.last_tick = w.data.at[T0, "closeTick"]
+    return w
